@@ -60,6 +60,21 @@ func zzDecimals(ptrs []interface{}, dfocus int) {
 	}
 }
 
+// zzFamily names the agent family of a version number exactly as every Write/Read/Process
+// of the package partitions them (same comparisons, so no additional paths).
+func zzFamily(ver int32) string {
+	if ver > 50000 {
+		return "go"
+	} else if ver > 40000 {
+		return "batch"
+	} else if ver > 30000 {
+		return "dotnet"
+	} else if ver > 20000 {
+		return "python"
+	}
+	return "php"
+}
+
 // zzRoundTrip: p := mk(), populated (Fill + decimal fields + extra), written at a fully
 // symbolic version; a fresh pack with the same version reads the bytes with the real
 // reader (no Process()). Obligations: the reader does not panic, consumes exactly the
@@ -87,6 +102,7 @@ func zzRoundTrip(name string, mk func() UdpPack, dec func(UdpPack) []interface{}
 	}
 	ver := zzvf.Int32() // EVERY version number
 	p.SetVersion(ver)
+	name = name + "/" + zzFamily(ver) // finding labels per agent family
 
 	b := ToBytesPack(p)
 
@@ -98,14 +114,14 @@ func zzRoundTrip(name string, mk func() UdpPack, dec func(UdpPack) []interface{}
 	in := io.NewDataInputX(b)
 	if zzvf.Panics(func() { q.Read(in) }) {
 		zzvf.Assert(false, name+"/read-does-not-panic")
-		zzvf.Reach(name)
+		zzvf.Reach("roundtrip")
 		return
 	}
 	zzvf.Assert(in.Available() == 0, name+"/consumed-exactly")
 	zzvf.AssertCarried(b, p, q, name)
 	b2 := ToBytesPack(q)
 	zzvf.Assert(zzvf.Same(b2, b), name+"/reencode-identical")
-	zzvf.Reach(name)
+	zzvf.Reach("roundtrip")
 }
 
 // zzPool: histories acquire^k, fill^k, release^k, acquire^k for k = 1, 2 on the pool of
@@ -233,8 +249,9 @@ func zzOccurs(needle, hay string) bool {
 // the password values are assumed not to occur in the rest of the connection string
 // (keys, separators, other tokens' values, the mask) to begin with.
 //
-// Value lengths: thorough tier — every token 1..3 independently; quick tier — at most one
-// token (rotated over all positions) is longer than 1 byte (2 or 3), the others 1 byte.
+// Value lengths: at most one token (rotated over all positions) is longer than the base
+// length (by 1 or 2 bytes, up to 3); base length 1 in the quick tier, 1 or 2 in the
+// thorough tier.
 func zzMask(name string, mk func() UdpPack, set func(UdpPack, string), get func(UdpPack) string, maxTok int) {
 	keys := [3]string{"password", "user", "host"}
 	nt := 1 + zzvf.Choose(maxTok)
@@ -245,24 +262,22 @@ func zzMask(name string, mk func() UdpPack, set func(UdpPack, string), get func(
 	var isPw [3]bool
 	var vals [3]string
 	npw := 0
-	long := -2 // thorough: all lengths independent
-	if !zzvf.Thorough() {
-		long = zzvf.Choose(nt+1) - 1
+	base := 1
+	if zzvf.Thorough() {
+		base = 1 + zzvf.Choose(2)
 	}
+	long := zzvf.Choose(nt+1) - 1
 	for i := 0; i < nt; i++ {
 		ki := zzvf.Choose(3)
 		isPw[i] = ki == 0
 		if isPw[i] {
 			npw++
 		}
-		n := 1
-		if long == -2 {
-			n = 1 + zzvf.Choose(3)
-		} else if long == i {
-			n = 2 + zzvf.Choose(2)
+		n := base
+		if long == i {
+			n = base + 1 + zzvf.Choose(3-base)
 		}
 		vals[i] = zzvf.String(n)
-		_ = keys[ki]
 		for j := 0; j < n; j++ {
 			c := vals[i][j]
 			zzvf.Assume(zzvf.Or(zzvf.And(c >= 'a', c <= 'z'), zzvf.And(c >= '0', c <= '9')))
